@@ -1,5 +1,5 @@
 ---------------------------- MODULE Sb2RomTrace ----------------------------
-(* TV form of C04 (batch trace validation).  Two kinds of traces, one initial state per trace:                 *)
+(* TV form of C04 (batch trace validation).  Three kinds of traces, one initial state per trace:               *)
 (*                                                                                                             *)
 (*  kind "rom"   : given = what was handed to the builder (header values, sections, abstract commands);        *)
 (*                 ev = the events the independent executor logged on the exported bytes, one per automaton    *)
@@ -10,25 +10,38 @@
 (*                 parse() did with the file (mode clean) or with a tampered file / a wrong KEK (mode tamper / *)
 (*                 wrongkek): it returned content (projected field by field, command by command) or raised.    *)
 (*                 A behaviour iff  returned /\ content = ref,  or  raised /\ mode # clean.                    *)
+(*  kind "hist"  : the HISTORY of one live builder object (Sb2Hist enumerates the histories).  given = the     *)
+(*                 constructor input; ev = the public calls made on the object, one event each: queries        *)
+(*                 (HDescribe = str() / repr() / raw_size / len(), HUpdate = update()), mutators (HAddSection, *)
+(*                 HAppendCmd, HReplaceCmd, HSetUid; the event carries the abstract section / command / id     *)
+(*                 that was handed over) and HExport, which is followed by the events the executor logged on   *)
+(*                 the bytes THAT export returned.  The abstract content of the object is state of this spec   *)
+(*                 (h.content, changed by the mutator actions only); every export is bound to the content at   *)
+(*                 that moment, i.e. the trace is a behaviour iff EVERY export of the history is accepted by   *)
+(*                 the ROM with header fields that describe the file and decodes what the object held then.    *)
 EXTENDS Sb2Rom, Sb2Operands, Json, IOUtils
 Traces == ndJsonDeserialize(IOEnv.TRACE_FILE)
 VARIABLES tid, l,
           pend,     \* clause markers that must be consumed next
-          psec, pcmd   \* parse traces: sections / commands of the current section seen so far
-tvars == <<st, hdr, cur, sec, needCert, hm, body, left, cmdAt, cov, certEnd, sigEnd, macSum, dec, tid, l, pend, psec, pcmd>>
+          psec, pcmd,  \* parse traces: sections / commands of the current section seen so far
+          h         \* history traces: [content: what the live object holds now (sections as given), nexp: exports so far, idle: no file is being walked]
+tvars == <<st, hdr, cur, sec, needCert, hm, body, left, cmdAt, cov, certEnd, sigEnd, macSum, dec, tid, l, pend, psec, pcmd, h>>
 Tr == Traces[tid]
 T == Tr.ev
 E == T[l]
-G == Tr.given
+Hist == Tr.kind = "hist"
+G == IF Hist THEN [Tr.given EXCEPT !.secs = h.content] ELSE Tr.given      \* a history is bound to what the object holds NOW
 Ref == Tr.ref
 Is(e) == l <= Len(T) /\ E.ev = e /\ pend = <<>>
 \* SOFT clauses ("this header field carries the value supplied / describes the file", "parse() recovers this field"): TLC evaluates them and
 \* records the NAME of every one that fails in a per-trace register, but goes on, so that one wrong header field does not hide what comes
 \* after it.  Everything else is HARD: a trace that is not consumed to its end is reported with REJ.  Both lists are printed by Post.
 SoftBase == 1000000
-Soft(name, ok) == IF ok THEN TRUE ELSE TLCSet(SoftBase + tid, TLCGet(SoftBase + tid) \cup {name})
-Bound == Tr.kind = "rom"       \* kind "anchor": a golden file of the reference tool, walked by the automaton alone (no builder input to compare with)
-Adv == l' = l + 1 /\ UNCHANGED tid
+SoftName(name) == IF Hist THEN name \o "@" \o ToString(h.nexp) ELSE name          \* history: the export (1, 2, ...) the clause failed for
+Soft(name, ok) == IF ok THEN TRUE ELSE TLCSet(SoftBase + tid, TLCGet(SoftBase + tid) \cup {SoftName(name)})
+Bound == Tr.kind \in {"rom", "hist"}       \* kind "anchor": a golden file of the reference tool, walked by the automaton alone (no builder input to compare with)
+AdvH == l' = l + 1 /\ UNCHANGED tid
+Adv == AdvH /\ UNCHANGED h
 NoP == UNCHANGED <<psec, pcmd>>
 Min(a, b) == IF a < b THEN a ELSE b
 
@@ -51,6 +64,7 @@ FieldOk(n) ==
     [] OTHER -> FALSE
 
 TInit == /\ tid \in 1..Len(Traces) /\ l = 1 /\ RInit /\ pend = <<>> /\ psec = 0 /\ pcmd = 0 /\ TLCSet(tid, 1) /\ TLCSet(SoftBase + tid, {})
+         /\ h = [content |-> IF Hist THEN Tr.given.secs ELSE <<>>, nexp |-> 0, idle |-> Hist]
 
 TField == /\ l <= Len(T) /\ E.ev = "Field" /\ pend # <<>> /\ E.name = Head(pend)
           /\ Soft(E.name, FieldOk(E.name))
@@ -58,7 +72,7 @@ TField == /\ l <= Len(T) /\ E.ev = "Field" /\ pend # <<>> /\ E.name = Head(pend)
 
 \* image_blocks is soft: the automaton goes on with the value the file itself demands (SB 2.1 / unsigned SB 2.0: the number of blocks of the file)
 ImageBlocksFixed(e) == IF e.minor = 1 \/ e.flags = FlagUnsigned THEN e.fileBlocks ELSE e.imageBlocks
-TParseHeader == /\ Is("ParseHeader") /\ Tr.kind \in {"rom", "anchor"} /\ E.longEnough
+TParseHeader == /\ Is("ParseHeader") /\ Tr.kind \in {"rom", "anchor", "hist"} /\ ~h.idle /\ E.longEnough
                 /\ Soft("image_blocks", E.imageBlocks = ImageBlocksFixed(E))
                 /\ ParseHeader([E EXCEPT !.imageBlocks = ImageBlocksFixed(E)])
                 /\ pend' = (IF Bound THEN HeaderMarkers ELSE <<>>) /\ NoP /\ Adv
@@ -79,7 +93,26 @@ TCmd == /\ Is("Cmd") /\ Cmd(E)
 TSecEnd == /\ Is("SectionEnd") /\ SectionEnd(E)
            /\ (Bound /\ ~needCert => Len(dec[Len(dec)].cmds) = Len(G.secs[Len(dec)].cmds))     \* no command missing
            /\ UNCHANGED pend /\ NoP /\ Adv
-TAccept == Is("Accept") /\ Accept(E) /\ (Bound => sec = Len(G.secs)) /\ UNCHANGED pend /\ NoP /\ Adv     \* section for section
+TAccept == /\ Is("Accept") /\ Accept(E) /\ (Bound => sec = Len(G.secs)) /\ UNCHANGED pend /\ NoP /\ AdvH     \* section for section
+           /\ h' = [h EXCEPT !.idle = Hist]                                 \* history: the object may be used again
+
+\* ---- history of one live object: the calls between the exports.  Only the mutators change what the object holds; an export starts a new
+\* walk of the ROM automaton (from its initial state) over the bytes that export returned
+HIs(e) == Is(e) /\ Hist /\ h.idle
+RStay == UNCHANGED rvars /\ UNCHANGED pend /\ NoP
+THQuery == (HIs("HDescribe") \/ HIs("HUpdate")) /\ UNCHANGED h /\ RStay /\ AdvH
+THAddSection == HIs("HAddSection") /\ h' = [h EXCEPT !.content = Append(@, E.sec)] /\ RStay /\ AdvH
+THAppendCmd == /\ HIs("HAppendCmd") /\ h.content # <<>>
+               /\ h' = [h EXCEPT !.content[Len(h.content)].cmds = Append(@, E.c)] /\ RStay /\ AdvH
+THReplaceCmd == /\ HIs("HReplaceCmd") /\ h.content # <<>>
+                /\ h' = [h EXCEPT !.content[Len(h.content)].cmds = [@ EXCEPT ![Len(@)] = E.c]] /\ RStay /\ AdvH
+THSetUid == HIs("HSetUid") /\ h.content # <<>> /\ h' = [h EXCEPT !.content[1].uid = E.uid] /\ RStay /\ AdvH
+THExport == /\ HIs("HExport") /\ st \in {"Header", "Accepted"}
+            /\ h' = [h EXCEPT !.nexp = @ + 1, !.idle = FALSE]
+            /\ st' = "Header" /\ hdr' = [minor |-> 0, flags |-> 0] /\ cur' = 0 /\ sec' = 0 /\ needCert' = FALSE
+            /\ hm' = [n |-> 0, per |-> 0, count |-> 0, k |-> 0] /\ body' = 0 /\ left' = 0 /\ cmdAt' = 0 /\ cov' = {}
+            /\ certEnd' = 0 /\ sigEnd' = 0 /\ macSum' = 0 /\ dec' = <<>>
+            /\ UNCHANGED pend /\ NoP /\ AdvH
 
 \* ---- second observer: SPSDK's parse()
 PFieldOk(n, got) ==
@@ -109,6 +142,7 @@ TPEnd == /\ Is("PEnd") /\ st = "PContent" /\ E.nsec = psec /\ psec = Len(Ref.sec
 
 TNext == TField \/ TParseHeader \/ TUnwrap \/ THdrMac \/ TCert \/ TSig \/ TSha \/ TTag \/ THmac \/ TCmd \/ TSecEnd \/ TAccept
          \/ TPOutcome \/ TPField \/ TPSection \/ TPCmd \/ TPSectionEnd \/ TPEnd
+         \/ THQuery \/ THAddSection \/ THAppendCmd \/ THReplaceCmd \/ THSetUid \/ THExport
 Constr == IF TLCGet(tid) < l THEN TLCSet(tid, l) ELSE TRUE
 Post == \A i \in 1..Len(Traces) :
           /\ \/ TLCGet(i) - 1 = Len(Traces[i].ev)
